@@ -74,11 +74,11 @@ def kind_of(rec, diff, config):
                      (not crash and diff == {'beyond'} and dmg == [(n, 0)])):
             return 'numbertostr-unit-nul-at-len'
     if n == 0 and config == 'default' and a in ('dbl', 'flt'):
-        if (crash and 'heap-buffer-overflow' in san and 'READ' in san) or (not crash and diff <= {'ret>len', 'prefix'} and not dmg):
+        if (crash and ('heap-buffer-overflow' in san or 'use-after-poison' in san) and 'READ' in san) or (not crash and diff <= {'ret>len', 'prefix'} and not dmg):
             return 'doubletostr-len0-strlen-of-unwritten-buffer'
     if n == 0 and config == 'dtostre' and a in ('dbl', 'flt', 'dtostre'):
         if (crash and (('utils.c' in san and 'addition of unsigned offset' in san and 'overflowed' in san) or
-                       ('heap-buffer-overflow' in san and 'WRITE of size 1' in san))) or \
+                       (('heap-buffer-overflow' in san or 'use-after-poison' in san) and 'WRITE of size 1' in san))) or \
            (not crash and 'front' in diff and dmg == [(-1, 0)]):
             return 'dtostre-len0-store-at-minus-1'
     if crash:
@@ -223,7 +223,7 @@ def run(pid, tier):
                 validate(rep, pid, w + '/int.ndjson', 'int', 'default', args, notes)
             rep.assumptions += ['the return value is read as "the number of characters produced", i.e. min(length of the canonical text, buffer length); the NUL is not counted',
                                 'bytes inside the buffer behind the terminating NUL are not constrained',
-                                'quick: every boundary value with the lengths 0, 1, |text|-1 .. |text|+2, 70 and one random length; thorough: every length 0..70']
+                                'quick: every boundary value with the lengths 0, 1, |text|-1 .. |text|+1, 70 and one random length; thorough: every length 0..70']
             if sweep:
                 calls = bad = 0
                 for f in sweep_f:
